@@ -32,7 +32,7 @@ def uniform_discretization(grid: GridBase) -> float:
         float: the common discretization of all axes
     """
     dx_mean = np.mean(grid.discretization)
-    if np.allclose(grid.discretization, dx_mean):
+    if np.allclose(grid.discretization, dx_mean, atol=0):
         return float(dx_mean)
     msg = "Grid discretization is not uniform"
     raise RuntimeError(msg)
